@@ -5,10 +5,12 @@ package main
 // in the c.Rule(...) calls of the per-property files.
 
 import (
+	"fmt"
 	"go/ast"
 	"go/constant"
 	"go/token"
 	"go/types"
+	"golang.org/x/tools/go/cfg"
 	"strings"
 )
 
@@ -1378,4 +1380,284 @@ func checkWriteReplaces(c *Ctx, rule string) {
 	if n < 2 {
 		c.Unresolved(rule, "WriteFile implementations of migrate.Dir (found fewer than 2)")
 	}
+}
+
+// ---------------------------------------------------------------------------
+// R05f / R01l: a generated column of the new table never receives a value.
+
+const ruleTextGeneratedSkipped = "copyRows: a column is added to the INSERT column list only on paths that established it is not generated (an edge on which sqlx.Has(column.Attrs, &schema.GeneratedExpr{}) is false): SQLite rejects an INSERT into any generated column, stored or virtual"
+
+func checkGeneratedSkipped(c *Ctx, rule string) {
+	fi := c.Func(rule, pSqlite, "state", "copyRows")
+	if fi == nil {
+		return
+	}
+	info := fi.Info()
+	f := newFlow(info, fi.Decl.Body)
+	isGenHas := func(e ast.Expr) bool {
+		call, ok := ast.Unparen(e).(*ast.CallExpr)
+		if !ok || !funcIs(calleeOf(info, call), pSqlx, "", "Has") || len(call.Args) != 2 {
+			return false
+		}
+		return typeIs(derefType(info.TypeOf(call.Args[1])), pSchema, "GeneratedExpr")
+	}
+	notGenerated := func(b *cfg.Block, si int) bool {
+		return edgeImplies(b, si, func(e ast.Expr, val bool) bool { return isGenHas(e) && !val })
+	}
+	// appends of a column name to a []string list
+	isColAppend := func(n ast.Node) bool {
+		as, ok := n.(*ast.AssignStmt)
+		if !ok || len(as.Rhs) != 1 || len(as.Lhs) != 1 {
+			return false
+		}
+		call, ok := as.Rhs[0].(*ast.CallExpr)
+		if !ok || builtinName(info, call) != "append" || len(call.Args) != 2 {
+			return false
+		}
+		sl, ok := info.TypeOf(as.Lhs[0]).Underlying().(*types.Slice)
+		if !ok {
+			return false
+		}
+		b, ok := sl.Elem().Underlying().(*types.Basic)
+		return ok && b.Info()&types.IsString != 0
+	}
+	n := len(f.find(isColAppend))
+	at, leak := f.reachEx([]point{f.entry()}, nil, isColAppend, notGenerated)
+	pos := fi.Decl.Pos()
+	if at != nil {
+		pos = at.Pos()
+	}
+	c.Check(rule, "copyRows|columns reach the INSERT lists only when not generated", pos, n > 0 && !leak, "copyRows can add a column to the INSERT lists on a path that did not establish the column is not generated (the skip condition is narrower than `has a GeneratedExpr`): the copy statement then writes into a generated column and SQLite rejects it")
+}
+
+// ---------------------------------------------------------------------------
+// R04g: a sort comparator reads the slice that is being sorted.
+
+const ruleTextSortSelf = "sort comparators index the slice being sorted: in sort.Slice / sort.SliceStable (S, func(i, j int) bool {…}) of the planning code every element read with i or j is an element of S itself (reading another slice with the positions of S compares elements that move while S is reordered)"
+
+func checkSortSelf(c *Ctx, rule string) {
+	n := 0
+	for _, pp := range []string{pSqlx, pMysql, pPostgres, pSqlite, pMigrate, pSchema} {
+		c.AllFuncs(false, func(fi *FuncInfo) {
+			if fi.Pkg.PkgPath != pp {
+				return
+			}
+			info := fi.Info()
+			for _, call := range callsIn(fi.Decl.Body, true) {
+				fn := calleeOf(info, call)
+				if fn == nil || fn.Pkg() == nil || fn.Pkg().Path() != "sort" || (fn.Name() != "Slice" && fn.Name() != "SliceStable") || len(call.Args) != 2 {
+					continue
+				}
+				fl, ok := ast.Unparen(call.Args[1]).(*ast.FuncLit)
+				if !ok || fl.Type.Params.NumFields() != 2 {
+					continue
+				}
+				var ps []types.Object
+				for _, fld := range fl.Type.Params.List {
+					for _, nm := range fld.Names {
+						ps = append(ps, info.ObjectOf(nm))
+					}
+				}
+				n++
+				c.funcs[fi.Name] = true
+				sorted := types.ExprString(ast.Unparen(call.Args[0]))
+				bad := ""
+				ast.Inspect(fl.Body, func(m ast.Node) bool {
+					ix, ok := m.(*ast.IndexExpr)
+					if !ok {
+						return true
+					}
+					id, ok := ast.Unparen(ix.Index).(*ast.Ident)
+					if !ok || len(ps) != 2 || (info.ObjectOf(id) != ps[0] && info.ObjectOf(id) != ps[1]) {
+						return true
+					}
+					if _, isSlice := info.TypeOf(ix.X).Underlying().(*types.Slice); isSlice && types.ExprString(ast.Unparen(ix.X)) != sorted {
+						bad = types.ExprString(ix)
+					}
+					return true
+				})
+				c.Check(rule, fi.Name+"|sort of "+sorted, call.Pos(), bad == "", "%s sorts %s but its comparator reads %s: the positions refer to %s, whose elements move during the sort, so the order that results is arbitrary", fi.Name, sorted, bad, sorted)
+			}
+		})
+	}
+	if n < 5 {
+		c.Unresolved(rule, "sort.Slice calls with a literal comparator in the planning packages (found fewer than 5)")
+	}
+}
+
+// ---------------------------------------------------------------------------
+// R04h: SortChanges emits from the regrouped list.
+
+const ruleTextEmitRegrouped = "SortChanges emits from the regrouped list: the loop that emits the changes (calls the recursive add closure) ranges over a variable whose latest assignment is the regrouping append(other, …views…, …drop…), the same list the dependency edges were computed over"
+
+func checkEmitRegrouped(c *Ctx, rule string) {
+	fi := c.Func(rule, pSqlx, "", "SortChanges")
+	if fi == nil {
+		return
+	}
+	info := fi.Info()
+	// the recursive closure
+	var addObj types.Object
+	ast.Inspect(fi.Decl.Body, func(m ast.Node) bool {
+		as, ok := m.(*ast.AssignStmt)
+		if !ok || len(as.Lhs) != 1 || len(as.Rhs) != 1 {
+			return true
+		}
+		fl, ok := as.Rhs[0].(*ast.FuncLit)
+		if !ok {
+			return true
+		}
+		id, ok := as.Lhs[0].(*ast.Ident)
+		if !ok {
+			return true
+		}
+		obj := info.ObjectOf(id)
+		for _, call := range callsIn(fl.Body, true) {
+			if cid, ok := call.Fun.(*ast.Ident); ok && info.ObjectOf(cid) == obj {
+				addObj = obj
+			}
+		}
+		return true
+	})
+	if addObj == nil {
+		c.Unresolved(rule, "SortChanges: the recursive emission closure")
+		return
+	}
+	n := 0
+	ast.Inspect(fi.Decl.Body, func(m ast.Node) bool {
+		if _, isLit := m.(*ast.FuncLit); isLit {
+			return false // the recursion inside the closure is not the emission loop
+		}
+		rs, ok := m.(*ast.RangeStmt)
+		if !ok {
+			return true
+		}
+		calls := false
+		for _, call := range callsIn(rs.Body, false) {
+			if cid, ok := call.Fun.(*ast.Ident); ok && info.ObjectOf(cid) == addObj {
+				calls = true
+			}
+		}
+		if !calls {
+			return true
+		}
+		n++
+		okDef := false
+		if id, isID := ast.Unparen(rs.X).(*ast.Ident); isID {
+			obj := info.ObjectOf(id)
+			var last *ast.AssignStmt
+			ast.Inspect(fi.Decl.Body, func(k ast.Node) bool {
+				as, isAs := k.(*ast.AssignStmt)
+				if !isAs || as.Pos() > rs.Pos() {
+					return true
+				}
+				for _, l := range as.Lhs {
+					if lid, isL := l.(*ast.Ident); isL && info.ObjectOf(lid) == obj {
+						last = as
+					}
+				}
+				return true
+			})
+			if last != nil && len(last.Rhs) == 1 {
+				names := map[string]bool{}
+				ast.Inspect(last.Rhs[0], func(k ast.Node) bool {
+					if x, isX := k.(*ast.Ident); isX {
+						names[x.Name] = true
+					}
+					return true
+				})
+				okDef = names["views"] && names["drop"] && names["other"]
+			}
+		}
+		c.Check(rule, "SortChanges|emission loop ranges over the regrouped list", rs.Pos(), okDef, "the loop that emits the sorted changes ranges over %s, which is not the regrouped list (other, views, drops): views and drops are no longer pushed behind the changes they may depend on", types.ExprString(rs.X))
+		return true
+	})
+	if n == 0 {
+		c.Unresolved(rule, "SortChanges: the loop that calls the emission closure")
+	}
+}
+
+// ---------------------------------------------------------------------------
+// R07i: the delimiter directive is written with the inverse of the table it is read with.
+
+const ruleTextDelimTables = "delimiter directive: the escape table of the writer (migrate.delim: strings.NewReplacer pairs a→b) is the inverse of the unescape table of the reader (Scanner.setDelim: pairs b→a), pair by pair"
+
+func checkDelimTables(c *Ctx, rule string) {
+	pairs := func(pkg, recv, name string) (map[string]string, bool) {
+		fi := c.Func(rule, pkg, recv, name)
+		if fi == nil {
+			return nil, false
+		}
+		info := fi.Info()
+		out := map[string]string{}
+		found := false
+		collect := func(call *ast.CallExpr, inf *types.Info) {
+			fn := calleeOf(inf, call)
+			if fn == nil || fn.Pkg() == nil || fn.Pkg().Path() != "strings" || fn.Name() != "NewReplacer" || len(call.Args)%2 != 0 {
+				return
+			}
+			found = true
+			for i := 0; i+1 < len(call.Args); i += 2 {
+				a, ok1 := stringConst(inf, call.Args[i])
+				b, ok2 := stringConst(inf, call.Args[i+1])
+				if ok1 && ok2 {
+					out[a] = b
+				}
+			}
+		}
+		for _, call := range callsIn(fi.Decl.Body, true) {
+			collect(call, info)
+		}
+		// a replacer hoisted into a package-level variable
+		if !found {
+			ast.Inspect(fi.Decl.Body, func(m ast.Node) bool {
+				id, ok := m.(*ast.Ident)
+				if !ok {
+					return true
+				}
+				v, ok := info.ObjectOf(id).(*types.Var)
+				if !ok || v.Pkg() == nil || v.Parent() != v.Pkg().Scope() {
+					return true
+				}
+				if p := c.Pkg(v.Pkg().Path()); p != nil {
+					for _, file := range p.Syntax {
+						ast.Inspect(file, func(k ast.Node) bool {
+							vs, ok := k.(*ast.ValueSpec)
+							if !ok {
+								return true
+							}
+							for i, nm := range vs.Names {
+								if p.TypesInfo.ObjectOf(nm) == v && i < len(vs.Values) {
+									if call, ok := ast.Unparen(vs.Values[i]).(*ast.CallExpr); ok {
+										collect(call, p.TypesInfo)
+									}
+								}
+							}
+							return true
+						})
+					}
+				}
+				return true
+			})
+		}
+		return out, found
+	}
+	w, ok1 := pairs(pMigrate, "", "delim")
+	r, ok2 := pairs(pMigrate, "Scanner", "setDelim")
+	if !ok1 || !ok2 {
+		c.Unresolved(rule, "strings.NewReplacer tables of migrate.delim and Scanner.setDelim")
+		return
+	}
+	bad := ""
+	for a, b := range w {
+		if r[b] != a {
+			bad = fmt.Sprintf("the writer escapes %q as %q but the reader does not turn %q back into %q", a, b, b, a)
+		}
+	}
+	for b, a := range r {
+		if w[a] != b {
+			bad = fmt.Sprintf("the reader unescapes %q to %q but the writer does not escape %q as %q", b, a, a, b)
+		}
+	}
+	c.Check(rule, "delim ⇄ Scanner.setDelim|escape tables are inverse", token.NoPos, bad == "" && len(w) > 0, "%s: a custom delimiter containing that sequence is announced in the header differently from what the statements end with, and the file is read back as one statement", bad)
 }
